@@ -12,8 +12,11 @@ import (
 
 	"github.com/elastos/Elastos.ELA/common"
 	"github.com/elastos/Elastos.ELA/core/types"
+	pg "github.com/elastos/Elastos.ELA/core/contract/program"
 	common2 "github.com/elastos/Elastos.ELA/core/types/common"
+	"github.com/elastos/Elastos.ELA/core/types/functions"
 	"github.com/elastos/Elastos.ELA/core/types/interfaces"
+	"github.com/elastos/Elastos.ELA/core/types/payload"
 	"verif/harness/internal/rep"
 	"verif/harness/internal/stack"
 )
@@ -73,6 +76,12 @@ func main() {
 		}
 		plain[name] = tx
 	}
+	// an input-less transaction (NextTurnDPOSInfo): a duplicate of it is caught by the
+	// duplicate-transaction rule alone (no duplicated input could stand in for it)
+	pk, _ := k.Acc.PublicKey.EncodePoint(true)
+	plain["n1"] = functions.CreateTransaction(common2.TxVersion09, common2.NextTurnDPOSInfo, 0,
+		&payload.NextTurnDPOSInfo{WorkingHeight: 9, CRPublicKeys: [][]byte{pk}, DPOSPublicKeys: [][]byte{pk}},
+		[]*common2.Attribute{}, []*common2.Input{}, []*common2.Output{}, 0, []*pg.Program{})
 	cb2 := n.CoinbaseTx(parent.Height+1, a.Hash)
 	cb2.Outputs()[0].Value = 1
 	cb2.Outputs()[1].Value = 2
